@@ -669,8 +669,10 @@ impl CircuitBuilder {
             });
             return;
         }
-        if let Some(existing_panic) = self.panic_gates.cache.get(&cond) {
-            self.panic_gates.result = existing_panic.clone();
+        if self.panic_gates.cache.contains_key(&cond) {
+            // The condition has already been checked on every path leading here, so it is
+            // already part of the current panic record (which must not be reset to the state it
+            // had back then, as that would drop all panics recorded in between).
             return;
         }
         let already_panicked = self.panic_gates.result.has_panicked;
@@ -742,10 +744,9 @@ impl CircuitBuilder {
         let mut cache = HashMap::new();
         for k in cache_t.keys().chain(cache_f.keys()) {
             match (cache_t.get(k), cache_f.get(k)) {
-                (None, None) => {}
-                (None, Some(result)) | (Some(result), None) => {
-                    cache.insert(*k, result.clone());
-                }
+                // a condition that was checked on only one of the two paths is not part of the
+                // panic record if the other path was taken, so it must be checked again:
+                (None, None) | (None, Some(_)) | (Some(_), None) => {}
                 (Some(t), Some(f)) => {
                     cache.insert(*k, self.mux_uncached_panic(condition, t, f));
                 }
